@@ -52,7 +52,7 @@ var tiers = map[string]tierCfg{
 		valid: 12000, truncSmall: 25, truncLarge: 15, truncTestdata: 0,
 		confuseSmall: 40, confuseSmallK: 8, confuseLarge: 40, confuseTestdata: 0, confuseTestdataK: 4,
 		wellknownExtra: 20000, noheaderDocs: 150, shuffles: 1500, muxCases: 0, randomBytes: 15000, randomCps: 15000,
-		boundaryDocs: 120, boundaryK: 4,
+		boundaryDocs: 60, boundaryK: 4,
 	},
 }
 
@@ -87,7 +87,7 @@ type builder struct {
 	inputs []input
 }
 
-const longInput = 20000
+var longInput = 20000 // run -shortlen
 
 func (b *builder) add(stream string, text []byte) {
 	in := input{idx: len(b.inputs), stream: stream, text: text}
@@ -524,7 +524,7 @@ func wellknownStream(b *builder, r *rng, extra int) {
 // ---- multiplexing ----------------------------------------------------------------------------
 
 const muxStructures = 12
-const muxRangeForms = 11
+const muxRangeForms = 12
 
 func muxRange(form, k int) string {
 	n := 1 << k
@@ -549,8 +549,15 @@ func muxRange(form, k int) string {
 		return strings.TrimSuffix(strings.Repeat("0-1, ", 50), ", ")
 	case 9:
 		return "1-4294967294"
-	default:
+	case 10:
 		return "4294967295-0"
+	default: // thousands of overlapping ranges: the expansion must stay bounded by the group count
+		hi := n - 2
+		if hi < 0 {
+			hi = 0
+		}
+		one := fmt.Sprintf("0-%d, ", hi)
+		return strings.TrimSuffix(strings.Repeat(one, 3000), ", ")
 	}
 }
 
@@ -719,4 +726,7 @@ func init() {
 	}
 	s.WriteString("\n")
 	corpus = append(corpus, s.String())
+	// 3000 overlapping ranges on a 16 bit selector
+	corpus = append(corpus, "BU_: A\nBO_ 1 m : 8 A\n SG_ mx M : 0|16@1+ (1,0) [0|1] \"\" A\n SG_ a m3 : 16|4@1- (1,2) [0|1] \"\" A\nSG_MUL_VAL_ 1 a mx "+
+		strings.TrimSuffix(strings.Repeat("0-65534, ", 3000), ", ")+";\n")
 }
